@@ -1,0 +1,79 @@
+//go:build verif
+
+package pppoe
+
+import (
+	"context"
+	"net"
+
+	"go.uber.org/zap"
+)
+
+// Verification seams for property C09 (decoder hammer in /verif). Exported
+// wrappers around unexported functions / fields and an in-memory raw socket;
+// nothing here has behaviour of its own.
+
+// VerifC09Socket is an in-memory rawSocket: every operation is forwarded to
+// the function the harness installed (open/close are no-ops).
+type VerifC09Socket struct {
+	Recv func(buf []byte) (int, error)
+	Send func(etherType uint16, dstMAC net.HardwareAddr, frame []byte) error
+}
+
+func (s *VerifC09Socket) open(iface string, etherType uint16) error { return nil }
+func (s *VerifC09Socket) close() error                              { return nil }
+func (s *VerifC09Socket) recv(buf []byte) (int, error)              { return s.Recv(buf) }
+func (s *VerifC09Socket) send(iface string, dstMAC net.HardwareAddr, etherType uint16, data []byte) error {
+	return s.Send(etherType, dstMAC, data)
+}
+
+// VerifC09NewServer builds a Server exactly like NewServerWithInterface and
+// installs sock as its raw socket (what Start does with newRawSocket()).
+func VerifC09NewServer(cfg ServerConfig, logger *zap.Logger, iface *net.Interface, sock *VerifC09Socket) (*Server, error) {
+	s, err := NewServerWithInterface(cfg, logger, iface)
+	if err != nil {
+		return nil, err
+	}
+	s.socket = sock
+	return s, nil
+}
+
+// VerifC09ReceiveLoop runs the real receiveLoop (the caller decides on which goroutine).
+func (s *Server) VerifC09ReceiveLoop(ctx context.Context) { s.receiveLoop(ctx) }
+
+// VerifC09SessionStates returns session id -> state name (read-only snapshot).
+func (s *Server) VerifC09SessionStates() map[uint16]string {
+	out := map[uint16]string{}
+	for _, sess := range s.sessions.GetAllSessions() {
+		out[sess.ID] = sess.GetState().String()
+	}
+	return out
+}
+
+// VerifC09SessionState returns the state name of one session ("" if there is none).
+func (s *Server) VerifC09SessionState(id uint16) string {
+	sess := s.sessions.GetSession(id)
+	if sess == nil {
+		return ""
+	}
+	return sess.GetState().String()
+}
+
+// VerifC09SessionMAC returns the client MAC of one session (nil if there is none).
+func (s *Server) VerifC09SessionMAC(id uint16) net.HardwareAddr {
+	sess := s.sessions.GetSession(id)
+	if sess == nil {
+		return nil
+	}
+	return sess.ClientMAC
+}
+
+// VerifC09Check runs one keep-alive check (what runLoop does on every tick).
+func (ka *SessionKeepAlive) VerifC09Check() { ka.check() }
+
+// VerifC09Pending reports whether an echo is outstanding and its identifier.
+func (ka *SessionKeepAlive) VerifC09Pending() (bool, uint8) {
+	ka.mu.Lock()
+	defer ka.mu.Unlock()
+	return ka.pendingEcho, ka.pendingID
+}
